@@ -54,7 +54,7 @@ def analyse(case, algo, run):
             # partners of this cycle from the go?/go? handshake (MGM2)
             partners = set()
             for (kk, x, y) in run["go"]:
-                if kk == k and (k, y, x) in run["go"]:
+                if kk == k and (k, y, x) in run["go"] and x in comp and y in comp:
                     partners.add(frozenset((x, y)))
             coord = [p for p in partners if any(n in changed for n in p)]
             stats["coordinated_moves"] += len(coord)
